@@ -241,7 +241,7 @@ func runC18(c *Case) {
 				killer := pick(r, al)
 				kw := map[string]any{}
 				if chance(r, 50) {
-					kw["reason"] = pick(r, []string{"com.myapp.kicked", "wamp.close.normal", "bad reason"})
+					kw["reason"] = pick(r, []string{"com.myapp.kicked", "wamp.close.normal", "bad reason", "wamp.close.system_shutdown", "wamp.close.goodbye_and_out", "wamp.error.system_shutdown"})
 				}
 				if chance(r, 30) {
 					kw["message"] = "bye"
@@ -269,6 +269,23 @@ func runC18(c *Case) {
 				}
 				kills++
 				exec(op)
+			case x < 87:
+				// testament recipe: both scopes populated, one flushed, then the session ends
+				if p <= 1 {
+					continue
+				}
+				for _, sc := range []string{"destroyed", "detached"} {
+					args, _ := g.payload()
+					if args == nil {
+						args = []any{}
+					}
+					exec(model.Op{Kind: model.OpMetaCall, P: p, Req: g.nextReq(p), URI: "wamp.session.add_testament",
+						Args: []any{pick(r, poolTopics), args, map[string]any{}}, Kw: map[string]any{"scope": sc}})
+				}
+				if chance(r, 80) {
+					exec(model.Op{Kind: model.OpMetaCall, P: p, Req: g.nextReq(p), URI: "wamp.session.flush_testaments", Kw: map[string]any{"scope": pick(r, []string{"destroyed", "detached"})}})
+				}
+				exec(model.Op{Kind: model.OpLeave, P: p, How: pick(r, []string{model.LeaveGoodbye, model.LeaveDrop})})
 			case x < 92:
 				// testaments
 				op := model.Op{Kind: model.OpMetaCall, P: p, Req: g.nextReq(p)}
